@@ -1377,6 +1377,9 @@ class GattServer(GattLayer):
                                     attr_obj.type_uuid
                                 )
                             )
+                        else:
+                            # UUID size changes: items of another size go in the next response
+                            break
                     else:
                         break
 
@@ -2311,6 +2314,9 @@ class GattServer(GattLayer):
                                             )
                                         )
                                     )
+                        else:
+                            # UUID size changes: items of another size go in the next response
+                            break
                     else:
                         break
 
